@@ -403,6 +403,19 @@ _R10 = {
 }
 for _p, _t in _R10.items():
     CHECKS[_p]["text"] += _t
+# ---- round 11 additions --------------------------------------------------------------------------------------------------
+_R11 = {
+    "C05": " has_small_order (ref10) narrows its accumulated differences only where the dropped bits are known zero or folded (R5.10, E12); R5.4 "
+           "confirms a leaking ignored bit on a second -O2 build with constant-trip loops unrolled.",
+    "C10": " The low-order rejection only the portable X25519 backend performs never narrows with loss (R10.11 = R5.10); assembly limb chains are "
+           "reached only under a length equality (R10.10 guard part).",
+    "C12": " The four Argon2 generate_addresses helpers fill pseudo_rands with the same index discipline (R12.11, E7).",
+    "C13": " In the detached secretbox functions every read of the message precedes the first write through mac (R13.3).",
+    "C14": " A chain of assembly limb operations is reached only under `len == C`, directly or at every call site of its helper (R14.8 guard part).",
+    "C18": " The internal generator's refill keeps the rekeying material outside the part of the pool it hands out (R18.8).",
+}
+for _p, _t in _R11.items():
+    CHECKS[_p]["text"] += _t
 _PENDING = "not claimed"
 NOT_APPLICABLE = {
     "C01": "every clause is an equality between computed byte strings and a mathematical specification over all keys/nonces/lengths/backends: "
